@@ -6,7 +6,8 @@ SPEC = {
     "targets": ["Properties/C05.vo", "Run/C05.vo"],
     "theorems": {"Properties.C05": ["C05_lint_exit_iff", "C05_ci_exit_iff", "C05_min_severity_irrelevant",
                                     "C05_below_threshold_passes", "C05_severity_tables", "C05_nonvacuous",
-                                    "C05_lint_flow", "C05_ci_flow", "C05_no_reports_passes", "C05_exit_paths_of_the_source",
+                                    "C05_lint_flow_partial", "C05_lint_flow_refuted", "C05_lint_crash_exact",
+                                    "C05_ci_flow_partial", "C05_ci_flow_refuted", "C05_no_reports_passes", "C05_exit_paths_of_the_source",
                                     "C05_flag_defaults", "C05_base_branch_plain", "C05_flow_nonvacuous"]},
     "harness_args": lambda tier: ["C05", "--n", 25 if tier == "quick" else 400],
     "search_args": lambda tier: ["C05", "--n", 150],
